@@ -9,7 +9,8 @@ The functions are the decision sequences of the code, in the code's order:
 
 * responder: `respSigma1` (`handle_casesigma1`: destination id → fabric, `CaseP::start`, Sigma2),
   `respSigma3` (`handle_casesigma3`: decrypt under S3K, `validate_certs`, TBS signature, CATs,
-  node id, session keys, resumption record), `respResume` (`try_handle_sigma1_resume`) and
+  node id, session keys, resumption record; `respSigma3At`: with the fabric re-read by index),
+  `respResumeStep` / `respResume` (`try_handle_sigma1_resume`) and
   `respResumeFinish` (the `SigmaFinished` status report);
 * initiator: `initSigma1` (`start_initiator`, Sigma1 with optional resumption fields),
   `initSigma2` (Sigma2: decrypt under S2K, `validate_certs`, expected node id, TBS signature,
@@ -271,27 +272,64 @@ structure RespResumeCtx where
   s2r : Msg
 deriving Repr, Inhabited
 
-/-- `try_handle_sigma1_resume`: `none` = fall through to the full handshake -/
-def respResume (fabrics : List Fabric) (cache : List ResRec) (m : Msg) (newRid sid : Term) :
-    Option RespResumeCtx :=
+/-- outcome of `try_handle_sigma1_resume` -/
+inductive ResumeOut where
+  /-- `Ok(false)`: no resumption fields / unknown id / `Resume1MIC` does not verify — the full
+  handshake follows on the same Sigma1 -/
+  | fallThrough
+  /-- `Sigma2_Resume` sent, reserved session loaded, waiting for `SigmaFinished` -/
+  | sent (cx : RespResumeCtx)
+  /-- `Sigma2_Resume` (with a valid `Resume2MIC`) has ALREADY been sent when the fabric of the record
+  turns out to be missing (`fabrics.get(record.fab_idx)` → `ErrorCode::Invalid`): the handler returns
+  the error, the exchange is dropped, no session, nothing more is sent.  (The initiator completes on
+  that `Sigma2_Resume`: a half-open session.)  Reachable only with a record whose fabric is gone:
+  every removal path purges the records (`remove_for_fabric`), so this needs the removal to land
+  between the MIC check and the look-up (the send awaits the acknowledgement in between). -/
+  | aborted (s2r : Msg)
+deriving Repr, Inhabited
+
+/-- `try_handle_sigma1_resume`, in the code's order: record by id → `Resume1MIC` → new id,
+`Resume2MIC` → SEND → session keys → fabric of the record (by index) → load the reserved session -/
+def respResumeStep (fabrics : List Fabric) (cache : List ResRec) (m : Msg) (newRid sid : Term) :
+    ResumeOut :=
   match m with
   | .sigma1 iRnd iSid _ _ (some (rid, mic1)) =>
     match cache.find? (fun r => r.rid == rid) with
-    | .none => .none
+    | .none => .fallThrough
     | some r =>
-      if mic1 ≠ Term.mic (resumeKey r.secret iRnd r.rid infoS1RK) nonceR1 then .none
+      if mic1 ≠ Term.mic (resumeKey r.secret iRnd r.rid infoS1RK) nonceR1 then .fallThrough
       else
+        let mic2 := Term.mic (resumeKey r.secret iRnd newRid infoS2RK) nonceR2
+        let s2r := Msg.sigma2Resume newRid mic2 sid
         match fabrics.find? (fun f => f.idx == r.fabIdx) with
-        | .none => .none
+        | .none => .aborted s2r
         | some f =>
-          let mic2 := Term.mic (resumeKey r.secret iRnd newRid infoS2RK) nonceR2
           let keys := resumeSessionKeys r.secret iRnd r.rid
-          some { record := r,
-                 session := { fabIdx := r.fabIdx, localNode := f.nodeId, peerNode := r.peerNode,
-                              cats := r.cats, i2r := .part 0 keys, r2i := .part 1 keys,
-                              localSid := sid, peerSid := iSid, sharedSecret := r.secret },
-                 newRid := newRid, s2r := .sigma2Resume newRid mic2 sid }
+          .sent { record := r,
+                  session := { fabIdx := r.fabIdx, localNode := f.nodeId, peerNode := r.peerNode,
+                               cats := r.cats, i2r := .part 0 keys, r2i := .part 1 keys,
+                               localSid := sid, peerSid := iSid, sharedSecret := r.secret },
+                  newRid := newRid, s2r := s2r }
+  | _ => .fallThrough
+
+/-- the successful branch of `respResumeStep` (`none` = the resumption did not go ahead: fall
+through or abort) -/
+def respResume (fabrics : List Fabric) (cache : List ResRec) (m : Msg) (newRid sid : Term) :
+    Option RespResumeCtx :=
+  match respResumeStep fabrics cache m newRid sid with
+  | .sent cx => some cx
   | _ => .none
+
+/-- `handle_casesigma3` re-reads the fabric BY INDEX from the table as it is when Sigma3 arrives
+(`state.fabrics.get(self.casep.local_fabric_idx())`; a missing fabric ⇒ status
+`NoSharedTrustRoots`, no session).  `respSigma3` works on the fabric found at Sigma1 (`ctx.fabric`);
+the two agree whenever the table still holds that fabric under that index
+(`C01.respSigma3At_eq` in `Props/C01Cache.lean`). -/
+def respSigma3At (t : Time) (fabrics : List Fabric) (ctx : RespCtx) (m : Msg) :
+    Option (Session × ResRec) :=
+  match fabrics.find? (fun f => f.idx == ctx.fabric.idx) with
+  | .none => .none
+  | some f => respSigma3 t { ctx with fabric := f } m
 
 /-- the reply to `Sigma2_Resume`: only a success status report completes the reserved session
 (and rotates the record's resumption id) -/
